@@ -12,13 +12,32 @@ type Engine struct{}
 func (Engine) Name() string { return "E2-call-history-simulator" }
 
 func (Engine) Gen(prop, tier string, r *detsim.Rand) interface{} {
+	var p *Plan
 	switch prop {
 	case "C08":
-		return GenC08(r, tier)
+		p = GenC08(r, tier)
 	case "C12":
-		return GenC12(r, tier)
+		p = GenC12(r, tier)
+	default:
+		p = GenC11(r, tier)
 	}
-	return GenC11(r, tier)
+	p.Cfg.Clock = simsync.ClockMode(r.Intn(4)) // the last draw: everything else of the plan is what it was before the clock existed
+	return p
+}
+
+// GenIndexed / SystematicTotal: the long histories of C08 and C12 (see GenLong); the driver splits them evenly among its workers.
+func (Engine) GenIndexed(prop, tier string, n uint64) interface{} {
+	if (prop != "C08" && prop != "C12") || n >= NLong {
+		return nil
+	}
+	return GenLong(prop, n)
+}
+
+func (Engine) SystematicTotal(prop, tier string) uint64 {
+	if prop == "C08" || prop == "C12" {
+		return NLong
+	}
+	return 0
 }
 
 func (Engine) Decode(raw json.RawMessage) (interface{}, error) {
@@ -52,6 +71,10 @@ func (Engine) Run(plan interface{}, ch detsim.Chooser) *detsim.RunReport {
 		rep.SwitchHash = o.Res.SwitchHash
 		rep.Steps = o.Res.Steps
 		rep.Counters.Add("context_switches", int64(o.Res.Switches))
+		if p.Repeat > 1 {
+			rep.Counters.Add("systematic_cases_run", 1)
+			rep.Counters.Add("long_histories", 1)
+		}
 		rep.PlanSchedHash = detsim.HashAdd(rep.LogHash, uint64(p.NCalls()))
 		h := o.Hist
 		if len(h) > 12 {
@@ -101,6 +124,8 @@ func (Engine) Shrink(plan interface{}, try func(interface{}) bool) interface{} {
 			}
 		}
 		simpler := []func(*Plan) bool{
+			func(p *Plan) bool { ok := p.Repeat > 1; p.Repeat = 0; return ok },
+			func(p *Plan) bool { ok := p.Repeat > 300; p.Repeat = p.Repeat / 2; return ok },
 			func(p *Plan) bool { ok := p.Churn > 0; p.Churn = 0; return ok },
 			func(p *Plan) bool { ok := p.FreshAt > 0; p.FreshAt = 0; return ok },
 			func(p *Plan) bool { ok := p.Cold; p.Cold = false; return ok },
